@@ -12,15 +12,18 @@ PROPERTIES = {}
 PROPERTIES["C19"] = dict(
     explanation="symx executes tokenhelper.Converse/Inverse from the SSA of /repo's working tree with a symbolic token and symbolic operands; "
                 "every switch arm is a solver-decided fork and every assertion is one (check-sat pc ∧ ¬A) query over all operand values.",
-    bounds=dict(quick="token in 0..127 (all go/token values); operands: all int64 pairs, all uint64 pairs, ASCII strings of length <= 6",
-                thorough="same; string length <= 10"),
-    outside=["floating-point operands (NaN breaks inverse for ordered comparisons in Go itself; NilAway only rewrites nil/len/int comparisons)"],
+    bounds=dict(quick="K1: token in 0..127 (all go/token values); operands: all int64 pairs, all uint64 pairs, ASCII strings of length <= 6. "
+                      "K2: AddNilCheck on x OP nil, nil OP x, len(a) OP k, k OP len(a), len(a)-c / len(a)+c compared with 0 in both operand orders; all six operators; len(a) in [0,2^62], constants in [-2^62,2^62]",
+                thorough="same"),
+    outside=["floating-point operands (NaN breaks inverse for ordered comparisons in Go itself; NilAway only rewrites nil/len/int comparisons)",
+             "K2: the nested-len heuristics the source itself labels 'technically unsound' (len(a)-1+b compared with positive constants) are not asserted sound; only the matchers documented as sound are"],
     exhaustive=True,
     assumptions=COMMON_ASSUMPTIONS,
     runs=[
         dict(pkg="util/tokenhelper", files=["util_tokenhelper/zz_verif_c19.go"], entry="Harness_C19_K1_int", args=dict(sample_every=7)),
         dict(pkg="util/tokenhelper", files=["util_tokenhelper/zz_verif_c19.go"], entry="Harness_C19_K1_uint", args=dict(sample_every=7)),
         dict(pkg="util/tokenhelper", files=["util_tokenhelper/zz_verif_c19.go"], entry="Harness_C19_K1_string", args=dict(sample_every=7)),
+        dict(pkg="assertion/function/assertiontree", files=["assertiontree/zz_verif_c02.go"], entry="Harness_C19_K2", native=False, args=dict(sample_every=17)),
     ],
 )
 
@@ -189,4 +192,54 @@ PROPERTIES["C15"] = dict(
         dict(pkg="inference", files=INFER_FILES, entry="Harness_C15_VarKeys", args=dict(sample_every=2)),
         dict(pkg="inference", files=INFER_FILES, entry="Harness_C15_Stable", args=dict(sample_every=1)),
     ],
+)
+
+C02_FILES = ["assertiontree/zz_verif_c02.go"]
+C02_EXPL = ("symx executes preprocess.(*Preprocessor).CFG (copyGraph, canonicalizeConditional and the other passes), blocksAndPreprocessingFromCFG and AddNilCheck with its closures from SSA on a CFG whose "
+            "entry block ends with a generated guard condition. The condition's shape is a choice; the nil-ness of x and y and the value of the opaque atom are symbolic Booleans, so every claim "
+            "about a branch is decided for all valuations by the solver.")
+
+PROPERTIES["C02"] = dict(
+    explanation=C02_EXPL,
+    bounds=dict(quick="conditions of nesting depth <=2 over x==nil, x!=nil, nil==y, nil!=y, c, !, (), &&, ||  (and, for A1/A2 only, ==true / !=false / false== / !=true)",
+                thorough="nesting depth <=3 (listed spellings), depth <=2 with boolean-literal comparisons"),
+    outside=["that a recognised guard discharges the consumer in the assertion tree (AddProduction / backpropagation), loop back edges, switch x {case nil:}, early returns: inside C01's unreachable core",
+             "the second sentence of the statement (zero diagnostics for fully guarded programs; precision for single-call-site programs)",
+             "native replay: the recorder that replaces (*RootAssertionNode).AddProduction exists only under symx, so sampled paths are not re-run natively for this check"],
+    assumptions=COMMON_ASSUMPTIONS + ["(*RootAssertionNode).AddProduction is replaced by a recorder (the assertion tree is outside the kernel)", "pass.TypesInfo.Types is empty, so IsNil takes its literal path (a shadowed `nil` is outside)"],
+    runs=[
+        dict(pkg="assertion/function/assertiontree", files=C02_FILES, entry="Harness_C02", native=False,
+             quick=dict(params=dict(DEPTH=2, BOOL_LITERALS=0)), thorough=dict(params=dict(DEPTH=3, BOOL_LITERALS=0)), args=dict(sample_every=997)),
+        dict(pkg="assertion/function/assertiontree", files=C02_FILES, entry="Harness_C02", name="_boollits", native=False,
+             quick=dict(params=dict(DEPTH=2, BOOL_LITERALS=1)), thorough=dict(params=dict(DEPTH=2, BOOL_LITERALS=1)), args=dict(sample_every=997)),
+    ],
+)
+
+
+def confirm_c17_templ(vs, outdir):
+    """Native confirmation: an analyzer sharing the pass with NilAway inspects the literal CFGs of the templ test package."""
+    import json, os, subprocess
+    ov = os.path.join(outdir, "overlay_c17_probe.json")
+    json.dump({"Replace": {"/repo/zz_verif_c17_probe_test.go": "/verif/harness/native/zz_verif_c17_probe_test.go"}}, open(ov, "w"))
+    env = dict(os.environ, GOFLAGS="-mod=mod", GOPROXY="off")
+    r = subprocess.run(["go", "test", "-vet=off", "-count=1", "-run", "^TestVerifC17TemplProbe$", "-overlay", ov, "."], cwd="/repo", env=env,
+                       stdout=subprocess.PIPE, stderr=subprocess.STDOUT, text=True)
+    return r.returncode != 0 and "shared function-literal CFG was modified" in r.stdout
+
+
+PROPERTIES["C17"] = dict(
+    explanation=C02_EXPL + " For C17 the harness renders everything reachable from the driver-shared inputs (CFG blocks, their Nodes/Succs backing arrays, the AST) canonically before and after the kernel "
+                "on every explored path and requires equality, plus no aliasing between the result and the input. The templ harness does the same for the function literal's CFG obtained through ctrlflow.",
+    bounds=dict(quick="guard conditions of depth <=2 (13 constructors) in a 3-block CFG; templ component functions whose literal CFG has 1..3 blocks (live or dead) with 0..2 returns each, both package path spellings",
+                thorough="guard conditions of depth <=3"),
+    outside=["every other consumer of shared input (assertion-tree construction, anonymousfunc, structfield, contract inference over shared SSA): whole-analysis code; a source scan found in-place writes to Nodes/Succs/Blocks only in preprocess",
+             "range/switch/type-switch marking on non-empty bodies (collectChildren and mark* run, but on a function without such statements)"],
+    assumptions=COMMON_ASSUMPTIONS + ["(*ctrlflow.CFGs).FuncLit and (*types.Package).Path are stubs returning harness values (type-checker / ctrlflow contract)",
+                                      "the templ harness has no symbolic scalars: its paths are the executor's exhaustive choice enumeration; the native confirmation is TestVerifC17TemplProbe on the repository's templ test package"],
+    runs=[
+        dict(pkg="assertion/function/assertiontree", files=C02_FILES, entry="Harness_C02", native=False,
+             quick=dict(params=dict(DEPTH=2, BOOL_LITERALS=1)), thorough=dict(params=dict(DEPTH=3, BOOL_LITERALS=0)), args=dict(sample_every=997)),
+        dict(pkg="assertion/function/preprocess", files=["preprocess/zz_verif_c17.go"], entry="Harness_C17_Templ", native=False, confirm=confirm_c17_templ, args=dict(sample_every=97)),
+    ],
+    extra=[],
 )
